@@ -161,9 +161,9 @@ func run(t interface{ Fatalf(string, ...any) }, c *Case) {
 
 // ---------------------------------------------------------------- generators
 
-var fields = []string{"a", "b", "c", "col_1", "X9", "zZ_", "count", "a0"}
+var fields = []string{"a", "b", "c", "col_1", "X9", "zZ_", "count", "a0", "and", "or", "not", "AND", "Or", "NOT", "null", "x_", "select", "where", "group", "by", "in", "true"}
 var values = []string{"\ufffd", "M\ufffdnchen", "x\xc0\xa2y", "\xc0\xa0", "\xc1\x81", "a  b", "a\tb", "", "x", "1", "a b", "é", "日本", "\xff", "a\"b", "\"", "\"\"", "\n", "a\nb", "$1", ";", "(", ")", "&|^", "=", ",", "\x00", "\t", "💩", "''", "\\"}
-var placeholders = []string{"1", "2", "3", "10", "007", "2147483647", "0001"}
+var placeholders = []string{"1", "2", "3", "10", "007", "2147483647", "0001", "00000000001", "0002147483647", "000000000000000000000000000000000000007", "65", "256", "1025"}
 
 func quote(v string) string { return `"` + strings.ReplaceAll(v, `"`, `""`) + `"` }
 
@@ -261,7 +261,7 @@ func genSentence(t *rapid.T) ([]string, *pb.Query) {
 	return toks, q
 }
 
-var junk = []string{"&", "|", "^", "(", ")", ";", ",", "=", "$", "$0", "$00", "$2147483648", "$4294967297", "$99999999999999999999", "$-1", "$1",
+var junk = []string{"&", "|", "^", "(", ")", ";", ",", "=", "$", "$0", "$00", "$2147483648", "$4294967297", "$99999999999999999999", "$00002147483648", "$000000000000", "$-1", "$1",
 	"$18446744073709551616", "$18446744073709551617", "$18446744075857035263", "$36893488147419103233", "$340282366920938463463374607431768211457", "$9223372036854775808", "$9223372036854775809",
 	"\"x", "\"", "\"\"\"", "x", "9", "_a", "é", "\xff", "\x00", "\v", "\f", "a=\"1\"", "junk", "a = \"1\" ; ", "#", "--", "'x'", "a==\"1\"", "\"a\"=\"b\""}
 
